@@ -89,6 +89,18 @@ CLAIMS["C07"] = dict(
     technique="static analysis: normal-form table + finite-domain abstract interpretation + CFG guard dominance + JSON table agreement",
     design="DESIGN.md section 5, C07")
 
+CLAIMS["C11"] = dict(
+    text="Resolution decided by code shape on every path: (R1) every type / type-argument class and ops.Custom rebuilds each field "
+         "that can contain types from its resolved content and passes the others unchanged (field kinds derived from annotations); "
+         "(R2) lookups use the value's own extension and name and `return self` occurs in exactly the not-found handlers; (R3) the "
+         "opaque form of the resolved value equals the original on extension/name/signature/args modulo nested resolution, using the "
+         "registry axioms (name-keyed dictionaries, owner back-reference) and the definition's description; (R4) Opaque and ExtType "
+         "export the same model symbol; (R5) Hugr.resolve_extensions is a total map over nodes and resolved forms are fixed points.",
+    note="Registry axioms (get_op(n).name == n, definition._extension is its owner) are established by C10.R2 and C11.R2. Not decided: "
+         "agreement of a document's declared bound with the registry's definition (data, not code).",
+    technique="static analysis: structural-recursion rule over annotated fields + symbolic composition with registry axioms + handler tables",
+    design="DESIGN.md section 5, C11")
+
 NOT_APPLICABLE_REASON: dict[str, str] = {}
 
 
